@@ -635,8 +635,8 @@ func (g *HistGen) nodeOf(h string) *ajson.Node {
 	return g.s.handles[i]
 }
 
-func isArr(n *ajson.Node) bool { return n.IsArray() }
-func isObj(n *ajson.Node) bool { return n.IsObject() }
+func isArr(n *ajson.Node) bool  { return n.IsArray() }
+func isObj(n *ajson.Node) bool  { return n.IsObject() }
 func isCont(n *ajson.Node) bool { return n.IsArray() || n.IsObject() }
 
 // detachedDistinct returns up to k handles of distinct detached nodes, none an ancestor-or-self of another
@@ -901,6 +901,18 @@ func streamHeap(o *Out, r *Rng, tier string) {
 							g.do(f...)
 						}
 						h := strconv.Itoa(len(g.s.handles) - 1) // the source is the last node built
+						if nClone%2 == 0 {
+							// the source was edited below its root before it is cloned (ancestors dirty but still carrying their text)
+							before := len(g.s.handles)
+							g.do("getkey", h, hexOrDash([]byte("a")))
+							g.do("getidx", h, "0")
+							if len(g.s.handles) > before {
+								deep := strconv.Itoa(len(g.s.handles) - 1)
+								g.do("getidx", deep, "0")
+								deep = strconv.Itoa(len(g.s.handles) - 1)
+								g.do("setstr", deep, hexOrDash([]byte("pre-edit")))
+							}
+						}
 						if pre != "" {
 							g.do("read", h, pre)
 						}
